@@ -410,7 +410,11 @@ def find_connected_nodes(
 
     for node in graph[start]:
         if node not in visited:
-            find_connected_nodes(graph, node, visited)
+            if node in graph:
+                find_connected_nodes(graph, node, visited)
+            else:
+                # a node without outgoing edges is still connected to start
+                visited.add(node)
 
     return visited
 
